@@ -22,9 +22,13 @@ LEVEL_TEXT = ('static analysis: (D1) each function registered in tabio.READERS /
               'with zero rows) and sorted; GenomicArray.sort interpreted on literal shuffled tables orders by (natural chromosome order, start, '
               'end) with ties in input order and renumbers the rows, and sorter_chrom orders 1 < 2 < 10 < 22 < X < Y < M < longer contig names '
               'identically for the bare, chr, Chr and CHR spellings; (D3) every format name sniff_region_format can return is a READERS key and '
-              'read_auto rewinds; (D4) every to_csv reached from tabio.write / write_dataframe passes a %.Ng float format with N>=6. Does not '
-              'decide the chromosome order of arbitrary names beyond those classes, regex coverage, or byte-identical rewrite.')
-TECHNIQUE = "abstract interpretation of reader/writer bodies with symbolic coordinates (offset dataflow to the sink column); dominance; registry agreement"
+              'read_auto rewinds; (D4) every to_csv reached from tabio.write / write_dataframe passes a %.Ng float format with N>=6. (D2c) '
+              'GenomicArray.__init__ interpreted on typed frames (chromosome parsed as str / int, start and end as int / float, 2 rows / 0 rows; '
+              'numpy scalar class facts as the trusted base): the array always holds chromosome as str and start / end as integers; the sort '
+              'table includes inputs already in alphabetical chromosome order. Does not decide the chromosome order of arbitrary names beyond '
+              'those classes, regex coverage, or byte-identical rewrite.')
+TECHNIQUE = ('abstract interpretation of reader/writer bodies with symbolic coordinates (offset dataflow to the sink column); dominance; '
+             "registry agreement; typed-frame interpretation of the constructor's dtype coercion")
 
 BASE = {"bed": 0, "bed3": 0, "bed4": 0, "tab": 0, "interval": 1, "text": 1, "gff": 1, "seg": 1, "picardhs": 1,
         "vcf": 1, "vcf-simple": 1, "vcf-sites": 1}
